@@ -150,7 +150,7 @@ class C17(Check):
         if cls == "Octree":
             records_mode = "explicit" if create.get("octree_cells") is not None else "default"
         prev_expected = None  # reference centres at the previous read (to recognise a stale cache)
-        last = "create"
+        last, last_attr = "create", ""
         setters_before = 0
         good_read = False
         n_reads = 0
@@ -181,7 +181,7 @@ class C17(Check):
                     elif attr.endswith("_count") and records_mode == "default":
                         records_mode = "stale-default"
                         res.label("octree:count-changed-under-default-records")
-                last = f"set:{attr}"
+                last, last_attr = "set", attr
                 setters_before += 1
                 res.count("setter_calls")
                 continue
@@ -223,7 +223,7 @@ class C17(Check):
                 kind = "position"
                 if (prev_expected is not None and prev_expected.shape == cent.shape
                         and float(np.max(np.abs(cent - prev_expected))) <= tol and last != "create"):
-                    kind = "stale-cache"
+                    kind = f"stale-cache:{last_attr}"
                 elif np.all(np.isfinite(cent)) and self._same_set(cent, expected, tol):
                     kind = "order"
                 worst = int(np.argmax(np.max(np.abs(cent - expected), axis=1))) if np.all(np.isfinite(cent)) else -1
@@ -308,10 +308,9 @@ class C17(Check):
         verts = np.c_[np.arange(n, dtype=float), (np.arange(n) % 3) / 2.0, np.zeros(n)]
         kwargs = {"vertices": verts}
         source = ("none", None)
-        user_parts = False
         if create["mode"] == "parts":
             kwargs["parts"] = np.asarray(create["labels"], dtype="int32")
-            source, user_parts = ("labels", list(create["labels"])), True
+            source = ("labels", list(create["labels"]))
         elif create["mode"] == "cells":
             kwargs["cells"] = np.asarray(create["cells"], dtype="uint32")
             source = ("cells", [list(c) for c in create["cells"]])
@@ -348,7 +347,7 @@ class C17(Check):
                     res.count("op_error")
                     res.label(f"op_error:set_parts:{type(exc).__name__}")
                     continue
-                source, user_parts = ("labels", list(op["labels"])), True
+                source = ("labels", list(op["labels"]))
                 res.label("set:parts")
                 res.count("setter_calls")
             elif kind == "set_cells":
@@ -366,7 +365,7 @@ class C17(Check):
                     res.count("op_error")
                     res.label(f"op_error:set_cells:{type(exc).__name__}")
                     continue
-                source, user_parts = ("cells", [list(c) for c in op["cells"]]), False
+                source = ("cells", [list(c) for c in op["cells"]])
                 res.label("set:cells", f"curve:cells-{op.get('style')}")
                 res.count("setter_calls")
             elif kind == "read_cells":
@@ -377,7 +376,6 @@ class C17(Check):
                     res.fail(f"C17/cells-raise/read_cells/Curve/source-{source[0]}:{type(exc).__name__}",
                              f"cells raised {exc!r} for {source}")
                     continue
-                user_parts = False  # the library re-derives the labels from the segments from here on
                 if source[0] == "labels":
                     derived_reads += 1
                     labels = source[1]
@@ -424,16 +422,17 @@ class C17(Check):
                 touched = {v for c in cells for v in c}
                 isolated = [v for v in range(n) if v not in touched]
                 ordered = geom.chain_ordered(cells)
-                derived = not user_parts
-                if derived:
-                    derived_reads += 1
-                    res.label("curve:parts-derived")
-                    if isolated:
-                        res.label("curve:derived-with-isolated-vertex")
-                    if not ordered:
-                        res.label("curve:derived-from-non-chain-cells")
+                # the labels are always re-derived from the segments: the `parts` setter persists the cells at
+                # once, and reading `cells` drops the labels it was given
+                derived_reads += 1
+                if isolated:
+                    res.label("curve:parts-with-isolated-vertex")
+                if not ordered:
+                    res.label("curve:parts-from-non-chain-cells")
+                if parts == (source[1] if source[0] == "labels" else None):
+                    res.label("curve:labels-returned-verbatim")
                 subset = None
-                if derived and not allow:
+                if not allow:
                     # guards of the two curve findings: compare on what they do not touch
                     if not ordered:
                         res.count("excluded_by_finding")
@@ -450,7 +449,7 @@ class C17(Check):
                         cond = "chain-ordered-cells"
                     res.fail(f"C17/parts-vs-connectivity/read_parts/Curve/{cond}",
                              f"segments {cells}: parts {parts} but connected components {comps} "
-                             f"(derived={derived})")
+                             f"(source {source[0]})")
                 elif len(set(comps)) >= 2 and max(comps.count(c) for c in set(comps)) >= 2:
                     rich = True
         res.nontrivial = rich and derived_reads > 0 and not res.fails
@@ -459,6 +458,9 @@ class C17(Check):
     # ------------------------------------------------------------------ shrinking
     def shrink_candidates(self, program):
         create = program.get("create", {})
+        if program.get("cls") == "Curve":
+            yield from self._shrink_curve(program)
+            return
         if program.get("cls") in GRID_CLASSES:
             for key, simple in (("rotation", None), ("dip", None), ("vertical", None), ("origin", [0.0, 0.0, 0.0])):
                 if key in create and create[key] != simple and not (key == "origin" and create[key] is None):
@@ -485,6 +487,45 @@ class C17(Check):
                     cand = dict(program)
                     cand["create"] = dict(create, **{key: 1.0})
                     yield cand
+
+    @staticmethod
+    def _shrink_curve(program):
+        create = program["create"]
+        n = int(create["n"])
+
+        def fits(prog, m):
+            """All vertex indices used anywhere are < m."""
+            lists = [prog["create"].get("cells") or []] + [op.get("cells") or [] for op in prog["ops"]]
+            return all(max(c) < m for cells in lists for c in cells)
+
+        if n > 2 and fits(program, n - 1):  # drop the last vertex
+            cand = dict(program)
+            cand["create"] = dict(create, n=n - 1)
+            if "labels" in create:
+                cand["create"]["labels"] = create["labels"][: n - 1]
+            cand["ops"] = [dict(op, labels=op["labels"][: n - 1]) if "labels" in op else op for op in program["ops"]]
+            yield cand
+        if create.get("cells") and len(create["cells"]) > 1:
+            for i in range(len(create["cells"])):
+                cand = dict(program)
+                cand["create"] = dict(create, cells=create["cells"][:i] + create["cells"][i + 1:])
+                yield cand
+        for pos, op in enumerate(program["ops"]):
+            if op.get("cells") and len(op["cells"]) > 1:
+                for i in range(len(op["cells"])):
+                    cand = dict(program)
+                    cand["ops"] = list(program["ops"])
+                    cand["ops"][pos] = dict(op, cells=op["cells"][:i] + op["cells"][i + 1:])
+                    yield cand
+        # relabel to small consecutive integers
+        def compact(labels):
+            order = {}
+            return [order.setdefault(v, len(order)) for v in labels]
+
+        if "labels" in create and compact(create["labels"]) != create["labels"]:
+            cand = dict(program)
+            cand["create"] = dict(create, labels=compact(create["labels"]))
+            yield cand
 
 
 CHECK = C17()
